@@ -151,7 +151,10 @@ pub fn explore(ex: &Ex) {
     let decoded_too = ex.scale != Scale::Small;
     par_partitions(ex.rep, chunks, |chunk, l| {
         for sel in chunk.iter() {
-            let params: Vec<(RLabel, Item)> = sel.iter().enumerate().map(|(n, i)| (pal[*i].clone(), if n % 2 == 0 { u(n as u64) } else { NULL })).collect();
+            // values: scalars, and a structured value whose own maps are NOT in any canonical order
+            // (canonicalize orders the key's labels; what the parameters hold is not its business)
+            let nested = || crate::gen::map(vec![(u(1000), crate::refcbor::TRUE), (crate::gen::t("z"), NULL), (u(2), crate::gen::arr(vec![crate::gen::map(vec![(crate::gen::t("b"), u(1)), (u(0), u(2))])]))]);
+            let params: Vec<(RLabel, Item)> = sel.iter().enumerate().map(|(n, i)| (pal[*i].clone(), if n == 2 || (n == 0 && sel.len() == 1) { nested() } else if n % 2 == 0 { u(n as u64) } else { NULL })).collect();
             for kty in [l_int(1), l_text("t")] {
                 for mask in 0..16u8 {
                     // all 16 subsets only for small selections; larger ones with none / all typed fields
